@@ -174,7 +174,7 @@ func (cf *CloudflarePublisher) PublishECH(ctx context.Context, records []Target,
 			results = append(results, result)
 			continue
 		}
-		params := strings.Split(v.Data.Value, " ")
+		params := splitParams(v.Data.Value)
 		var newParams []string
 		var oldValue string
 		for _, p := range params {
@@ -204,6 +204,28 @@ func (cf *CloudflarePublisher) PublishECH(ctx context.Context, records []Target,
 		results = append(results, result)
 	}
 	return results
+}
+
+// splitParams splits a SvcParams presentation string (RFC 9460 Section 2.1)
+// on the spaces that are not part of a quoted value.
+func splitParams(s string) []string {
+	var params []string
+	var quoted, escaped bool
+	start := 0
+	for i := 0; i < len(s); i++ {
+		switch {
+		case escaped:
+			escaped = false
+		case s[i] == '\\':
+			escaped = true
+		case s[i] == '"':
+			quoted = !quoted
+		case s[i] == ' ' && !quoted:
+			params = append(params, s[start:i])
+			start = i + 1
+		}
+	}
+	return append(params, s[start:])
 }
 
 func (cf *CloudflarePublisher) getZoneData(ctx context.Context, zone string, data map[zoneName]idData) error {
